@@ -19,6 +19,8 @@ import PyTough.Model.GeoInv
 import PyTough.Proofs.GeoNames
 import PyTough.Proofs.GeoRigid
 import PyTough.Proofs.GeoEdits
+import PyTough.Proofs.GeoConn
+import PyTough.Proofs.GeoConnDel
 namespace Props.C10
 open Model.Geo Model.Geo.Geo Py Proofs.Geo
 
@@ -102,8 +104,8 @@ theorem raw_edits_leave_indices_stale :
 
 `add_node`, `delete_node` (of a node no column uses), `add_well`, `delete_well` preserve the whole invariant;
 `add_layer` and `delete_layer` preserve its structural part (what they do not refresh is the known finding
-above).  The corresponding statements for `add_/delete_ column / connection` are not proved yet: they are
-covered by the correspondence and the oracle only. -/
+above).  `add_connection` / `delete_connection` preserve the structural part too.  The corresponding statements for
+`add_column` / `delete_column` are not proved yet: they are covered by the correspondence and the oracle only. -/
 
 theorem add_node_preserves (g : Geo) (name : Name) (pos : Pt) (h : g.geoInv = true) :
     (g.addNode name pos).geoInv = true := addNode_geoInv g name pos h
@@ -123,6 +125,25 @@ theorem add_layer_preserves_structure (g : Geo) (l : Layer) (h : g.geoInv0 = tru
 
 theorem delete_layer_preserves_structure (g g' : Geo) (name : Name) (hd : g.deleteLayer name = .ok g')
     (h : g.geoInv0 = true) : g'.geoInv0 = true := deleteLayer_geoInv0 g g' name hd h
+
+/-- `add_connection` between two different, not yet joined columns of the geometry that share a side
+    (`AddConnPre`): registries, both columns' connection sets, both neighbour sets and the connection's node pair
+    are all right afterwards (the connection name list is not refreshed: known finding) -/
+theorem add_connection_preserves_structure (g : Geo) (c0 c1 : Nat) (pre : AddConnPre g c0 c1)
+    (h : g.geoInv0 = true) : (g.addConnection c0 c1).geoInv0 = true := addConnection_geoInv0 g c0 c1 pre h
+
+/-- `delete_connection`: the connection leaves the dictionary, the list and both columns' connection sets, and
+    the two columns stop being neighbours exactly when no other connection joins them -/
+theorem delete_connection_preserves_structure (g g' : Geo) (names : Name × Name)
+    (hd : g.deleteConnection names = .ok g') (h : g.geoInv0 = true) : g'.geoInv0 = true :=
+  deleteConnection_geoInv0 g g' names hd h
+
+-- non-vacuity: on the two-column strip, delete the connection and add it again (in the other direction)
+example : (strip2 >>= fun g => g.deleteConnection (nm 'a', nm 'b')).map
+    (fun g => (g.geoInv0, g.joined 0 1, addConnPreB g 1 0)) = .ok (true, false, true) := by
+  decide +kernel
+example : (strip2 >>= fun g => g.deleteConnection (nm 'a', nm 'b')).map
+    (fun g => (g.addConnection 1 0).geoInv0 && (g.addConnection 1 0).meshValid) = .ok true := by decide +kernel
 
 -- non-vacuity: adding an (orphan) node and deleting it again on the two-column strip
 example : (strip2 >>= fun g => (g.addNode (nm 'z') (5, 5)).deleteNode (nm 'z')).map Geo.geoInv = .ok true := by
